@@ -394,6 +394,13 @@ func ruleStoresOnlyCreated(w *World, r *Report, rule string) {
 					looked[o] = as.Rhs[0]
 				}
 			}
+			// … or by a resolution (resolve, Get, GetKeyed): what a resolution returns was stored - and
+			// is tracked - by the scope that owns it (an alias that files the target's instance again)
+			if c, isC := unparen(as.Rhs[0]).(*ast.CallExpr); isC && isResolutionFunc(w, ro, callee(info, c)) {
+				if o := objOf(info, as.Lhs[0]); o != nil {
+					looked[o] = as.Rhs[0]
+				}
+			}
 			return true
 		})
 		k := 0
@@ -422,7 +429,7 @@ func ruleStoresOnlyCreated(w *World, r *Report, rule string) {
 			con := fmt.Sprintf("%s#stores:%s/%d", fi.Name(), cal.Name(), k)
 			r.Check(bad == "", rule, con, c.Pos(), false,
 				"the instance handed to "+cal.Name()+" does not come out of an instance table",
-				"the instance handed to "+cal.Name()+" was read from an instance table: "+bad+" - the storing scope tracks an instance another owner created and closes it a second time (and while its owner is still open)")
+				"the instance handed to "+cal.Name()+" was read from an instance table or came out of a resolution: "+bad+" - the storing scope tracks an instance another owner created and closes it a second time (and while its owner is still open)")
 		}
 	}
 	if n == 0 {
@@ -1117,11 +1124,37 @@ func ruleBuildOneCriticalSection(w *World, r *Report, rule string) {
 		op  string
 	}
 	var acqs []acq
+	// a critical section that touches none of the registry views (it reads a list of
+	// callbacks, an option) is not a second look at the registry
+	rg := resolveRegistry(w)
+	touchesViews := func(fi *FuncInfo) bool {
+		for _, f := range w.Within(fi, 4) {
+			touched := false
+			finfo := f.Pkg.TypesInfo
+			ast.Inspect(f.Decl.Body, func(x ast.Node) bool {
+				if sel, ok := x.(*ast.SelectorExpr); ok {
+					if fv := fieldOf(finfo, sel); fv != nil && (fv == rg.services || fv == rg.groups || fv == rg.all) {
+						touched = true
+					}
+				}
+				return true
+			})
+			if touched {
+				return true
+			}
+		}
+		return false
+	}
+	other := 0
 	for fi := range build {
 		info := fi.Pkg.TypesInfo
 		for _, c := range callsIn(fi.Decl.Body, true) {
 			_, fld, op, ok := mutexOp(info, c)
 			if ok && fld == mu && (op == "Lock" || op == "RLock") {
+				if rg.services != nil && !touchesViews(fi) {
+					other++
+					continue
+				}
 				acqs = append(acqs, acq{fi, c.Pos(), op})
 			}
 		}
@@ -1129,7 +1162,7 @@ func ruleBuildOneCriticalSection(w *World, r *Report, rule string) {
 	sort.Slice(acqs, func(i, j int) bool { return acqs[i].pos < acqs[j].pos })
 	switch {
 	case len(acqs) == 1:
-		r.OK(rule, entry.Name()+"#one-critical-section", acqs[0].pos, false, "the %d functions a Build runs take collection.%s once (%s in %s): graph, validation and snapshot see one state of the registry", len(build), mu.Name(), acqs[0].op, acqs[0].fi.Name())
+		r.OK(rule, entry.Name()+"#one-critical-section", acqs[0].pos, false, "the %d functions a Build runs take collection.%s once around the registry views (%s in %s; %d other section(s) touch no view): graph, validation and snapshot see one state of the registry", len(build), mu.Name(), acqs[0].op, acqs[0].fi.Name(), other)
 	case len(acqs) == 0:
 		r.Fail(rule, entry.Name()+"#one-critical-section", entry.Decl.Pos(), "no function a Build runs takes collection.%s: the registry is read while registrations may change it", mu.Name())
 	default:
@@ -1886,10 +1919,19 @@ func ownedLocalSlice(fi *FuncInfo, info *types.Info, o *types.Var) bool {
 		return objOf(info, e) == o
 	}
 	okAll, any := true, false
+	if ownedBusy[o] {
+		return true // a cycle of moves between locals (cur, next = next, cur): decided by the other definitions
+	}
+	ownedBusy[o] = true
+	defer delete(ownedBusy, o)
 	judge := func(rhs ast.Expr) {
 		any = true
 		rhs = unparen(rhs)
 		if isNilIdent(info, rhs) || self(rhs) {
+			return
+		}
+		// a move from another local this function owns (current = next)
+		if o2, isV := objOf(info, rhs).(*types.Var); isV && o2 != o && ownedLocalSlice(fi, info, o2) {
 			return
 		}
 		if _, isLit := rhs.(*ast.CompositeLit); isLit {
@@ -1960,6 +2002,110 @@ func ownedLocalSlice(fi *FuncInfo, info *types.Info, o *types.Var) bool {
 }
 
 var freshSliceBusy = map[types.Object]bool{}
+var ownedBusy = map[types.Object]bool{}
+
+// ownedLocalTable: o is a local map (or slice) of slices that is only ever bound
+// to make(…) or a composite literal in this function, and whose address is not taken.
+func ownedLocalTable(fi *FuncInfo, info *types.Info, o *types.Var) bool {
+	if o.IsField() || isParamOrRecv(fi, info, o) || !(fi.Decl.Body.Pos() <= o.Pos() && o.Pos() < fi.Decl.Body.End()) {
+		return false
+	}
+	var elem types.Type
+	switch t := o.Type().Underlying().(type) {
+	case *types.Map:
+		elem = t.Elem()
+	case *types.Slice:
+		elem = t.Elem()
+	default:
+		return false
+	}
+	if _, isSl := elem.Underlying().(*types.Slice); !isSl {
+		return false
+	}
+	ok, any := true, false
+	ast.Inspect(fi.Decl.Body, func(x ast.Node) bool {
+		switch st := x.(type) {
+		case *ast.AssignStmt:
+			for i, l := range st.Lhs {
+				id, isId := unparen(l).(*ast.Ident)
+				if !isId || (info.Defs[id] != o && info.Uses[id] != o) {
+					continue
+				}
+				any = true
+				if len(st.Lhs) != len(st.Rhs) {
+					ok = false
+					continue
+				}
+				rhs := unparen(st.Rhs[i])
+				if _, isLit := rhs.(*ast.CompositeLit); isLit {
+					continue
+				}
+				if c, isC := rhs.(*ast.CallExpr); isC && exprStr(c.Fun) == "make" {
+					continue
+				}
+				ok = false
+			}
+		case *ast.UnaryExpr:
+			if st.Op == token.AND && objOf(info, st.X) == o {
+				ok = false
+			}
+		}
+		return true
+	})
+	return ok && any
+}
+
+// elementsOwned: o is a local slice of slices (or map of slices) this function
+// built, and every element assignment `o[i] = rhs` gives the element storage of
+// its own: append onto that element (or nil), make, nil, a literal, an owned local.
+func elementsOwned(fi *FuncInfo, info *types.Info, o *types.Var) bool {
+	ok := true
+	ast.Inspect(fi.Decl.Body, func(x ast.Node) bool {
+		as, isAs := x.(*ast.AssignStmt)
+		if !isAs {
+			return true
+		}
+		for i, l := range as.Lhs {
+			ix, isIx := unparen(l).(*ast.IndexExpr)
+			if !isIx || objOf(info, ix.X) != o {
+				continue
+			}
+			if len(as.Lhs) != len(as.Rhs) {
+				ok = false
+				continue
+			}
+			rhs := unparen(as.Rhs[i])
+			if isNilIdent(info, rhs) {
+				continue
+			}
+			if _, isLit := rhs.(*ast.CompositeLit); isLit {
+				continue
+			}
+			if o2, isV := objOf(info, rhs).(*types.Var); isV && ownedLocalSlice(fi, info, o2) {
+				continue
+			}
+			if c, isC := rhs.(*ast.CallExpr); isC {
+				if id, isId := unparen(c.Fun).(*ast.Ident); isId {
+					if id.Name == "make" {
+						continue
+					}
+					if id.Name == "append" && len(c.Args) > 0 {
+						a0 := unparen(c.Args[0])
+						if isNilIdent(info, a0) {
+							continue
+						}
+						if ax, isAx := a0.(*ast.IndexExpr); isAx && objOf(info, ax.X) == o && exprStr(ax.Index) == exprStr(ix.Index) {
+							continue
+						}
+					}
+				}
+			}
+			ok = false
+		}
+		return true
+	})
+	return ok
+}
 
 func freshSliceExpr(w *World, fi *FuncInfo, e ast.Expr, depth int) (res bool) {
 	info := fi.Pkg.TypesInfo
@@ -1979,6 +2125,31 @@ func freshSliceExpr(w *World, fi *FuncInfo, e ast.Expr, depth int) (res bool) {
 	}
 	if o, isV := objOf(info, e).(*types.Var); isV && ownedLocalSlice(fi, info, o) {
 		return true
+	}
+	// rows[i] of a local slice of slices this function built and filled row by row
+	if ix, isIx := unparen(e).(*ast.IndexExpr); isIx {
+		if o, isV := objOf(info, ix.X).(*types.Var); isV {
+			if sl, isSl := o.Type().Underlying().(*types.Slice); isSl {
+				if _, inner := sl.Elem().Underlying().(*types.Slice); inner && ownedLocalSlice(fi, info, o) && elementsOwned(fi, info, o) {
+					return true
+				}
+			}
+		}
+	}
+	// the element variable of a loop over a local table (map or slice of slices) this function
+	// built and filled element by element: for _, list := range dependents { sort(list) }
+	if o, isV := objOf(info, e).(*types.Var); isV && !assignedIn(info, fi.Decl.Body, o) {
+		for _, l := range iterLoopsIn(info, fi.Decl.Body) {
+			if l.Elem != o || l.CollObj == nil {
+				continue
+			}
+			if rs, isRange := l.Stmt.(*ast.RangeStmt); !isRange || rs.Value == nil || objOf(info, rs.Value) != o {
+				continue
+			}
+			if tbl, isT := l.CollObj.(*types.Var); isT && ownedLocalTable(fi, info, tbl) && elementsOwned(fi, info, tbl) {
+				return true
+			}
+		}
 	}
 	e = resolveLocal(info, fi.Decl.Body, e, 3)
 	if ok, _ := freshDepth(info, fi, e, 2); ok {
@@ -2452,6 +2623,30 @@ func ruleAddReplacesEdges(w *World, r *Report, rule string) {
 				}
 				return
 			}})
+		// per path (a batch add does all of it inside a loop): a provider put on a node owes the
+		// node its edge list and its dependency list until they are written
+		owes := fl.Solve(Spec{Must: false, Global: globalPrefixes("owes:"),
+			Node: func(nd ast.Node, in Facts) (gen, kill []string) {
+				if as, ok := nd.(*ast.AssignStmt); ok {
+					for i, l := range as.Lhs {
+						if fv := fieldOf(info, l); fv != nil && fv.Name() == "Provider" && ownerOfFieldRaw(w, fv) == "Node" && len(as.Rhs) == len(as.Lhs) && !isNilIdent(info, as.Rhs[i]) {
+							gen = append(gen, "owes:edges", "owes:deps")
+						}
+						if ix, isIx := unparen(l).(*ast.IndexExpr); isIx && fieldOf(info, ix.X) == g.edges {
+							kill = append(kill, "owes:edges")
+						}
+						if fv := fieldOf(info, l); fv != nil && fv == g.nodeDeps {
+							kill = append(kill, "owes:deps")
+						}
+					}
+				}
+				for _, c := range callsIn(nd, false) {
+					if id, ok := unparen(c.Fun).(*ast.Ident); ok && id.Name == "delete" && len(c.Args) == 2 && fieldOf(info, c.Args[0]) == g.edges {
+						kill = append(kill, "owes:edges")
+					}
+				}
+				return
+			}})
 		k := 0
 		for _, ex := range fl.Exits() {
 			if ex.Panic || ex.Ret == nil || len(ex.Ret.Results) != 1 || !isNilIdent(info, ex.Ret.Results[0]) {
@@ -2460,6 +2655,9 @@ func ruleAddReplacesEdges(w *World, r *Report, rule string) {
 			k++
 			at := sol.AtExit(ex)
 			ok := at.Has("edges-set") && at.Has("deps-set")
+			if oa := owes.AtExit(ex); !ok && !oa.Has("owes:edges") && !oa.Has("owes:deps") {
+				ok = true
+			}
 			r.Check(ok, rule, fmt.Sprintf("%s#accepting-exit/%d", fi.Name(), k), ex.Pos, true,
 				"the node's edge list and dependency list have been replaced on every path to this accepting exit",
 				fmt.Sprintf("%s can accept a provider without having replaced the node's entry in the edge table (set: %v) and its dependency list (set: %v): a provider that replaces an earlier one keeps the earlier one's edges when it has no dependencies of its own", fi.Name(), at.Has("edges-set"), at.Has("deps-set")))
